@@ -186,7 +186,7 @@ Qed.
 
 (* ---------------- the observers read the store and never change it ---------------- *)
 Theorem observers_pure : forall cfg pol u s r,
-  match r with RGet _ | RPropfind _ _ | RMultiget _ _ _ => True | _ => False end ->
+  match r with RGet _ | RPropfind _ _ | RMultiget _ _ _ | RQuery _ _ _ => True | _ => False end ->
   fst (handle cfg pol u s r) = ensure_home pol s u.
 Proof. intros cfg pol u s r H. destruct r; try contradiction; reflexivity. Qed.
 
